@@ -81,45 +81,98 @@ def check(run):
     mal = [sqlgen.malformed(rng) for _ in range(500 if quick else 20000)]
     dist["malformed"] = len(mal)
     allst = stmts + mal
-    # 1. tokens and parse through the implementation
-    lines = []
-    for n, s in enumerate(allst):
-        h = s.encode("utf-8", "surrogatepass").hex() or "-"
+    # every input as bytes: the statements and the malformed stream (UTF-8, lone surrogates kept as the invalid
+    # sequences they encode to), then the lexical stream built for the tokenizer's decision points
+    lex = [sqlgen.lexical(rng) for _ in range(2500 if quick else 60000)]
+    dist["lexical"] = len(lex)
+    inputs = [s.encode("utf-8", "surrogatepass") for s in allst] + lex
+    # 1. tokens and parse through the implementation; Model/Tokenizer.v and the translated parser on the same bytes
+    lines, mlines = [], []
+    for n, b in enumerate(inputs):
+        h = b.hex() or "-"
         lines.append(("t%d" % n, "tokens %s" % h))
         lines.append(("p%d" % n, "parse %s" % h))
+        mlines.append(("t%d" % n, "mtokens %s" % h))
+        mlines.append(("p%d" % n, "mparse %s" % h))
     res, impl, _ = ops.run_cmds("c16-impl", lines, sides=("impl",), timeout=900)
     if res["impl"][0] != 0:
         run.violation("the parser harness died: %s" % res["impl"][2][-300:], {"kind": "crash", "stderr": res["impl"][2][-1500:]})
-    # 2. the translated parser on the implementation's token lists
-    mlines, idx = [], {}
-    for n, s in enumerate(allst):
+    res2, _, model = ops.run_cmds("c16-model", mlines, sides=("model",), timeout=1800)
+    if res2["model"][0] != 0:
+        run.violation("modelrun died: %s" % res2["model"][2][-300:], {"no_failing_input_found": True, "broken": "model execution", "stderr": res2["model"][2][-1500:]})
+    idx = {}
+    tok_kinds = {}
+    broken_tok = []
+    for n, b in enumerate(inputs):
+        shown = b.decode("utf-8", "replace")
         t = (impl.get("t%d" % n) or ["?"])[0]
         p = (impl.get("p%d" % n) or ["?"])[0]
+        mt = (model.get("t%d" % n) or ["?"])[0]
+        m = (model.get("p%d" % n) or ["?"])[0]
         run.count()
         if "PANIC" in t or "PANIC" in p or t == "?" or p == "?":
-            run.violation("the parser panics on %r" % s[:120], {"kind": "panic", "sql": s, "tokens": t[:200], "parse": p[:200]})
+            run.violation("the parser panics on %r" % shown[:120], {"kind": "panic", "sql": shown, "hex": b.hex(), "tokens": t[:200], "parse": p[:200]})
             continue
         if t.startswith("tokens err"):
             dist["tokenizer_errors"] += 1
             if not p.startswith("reject"):
-                run.violation("tokenizer error but Parse accepts: %r" % s[:120], {"kind": "impl-inconsistent", "sql": s, "parse": p[:200]})
-            continue
-        toks = t[len("tokens ok"):].strip()
-        mlines.append(("m%d" % n, "yparse %s" % toks))
-        idx[n] = p
-        dist["accepted" if p.startswith("accept") else "rejected"] += 1
-    res2, _, model = ops.run_cmds("c16-model", mlines, sides=("model",), timeout=900)
-    if res2["model"][0] != 0:
-        run.violation("modelrun died: %s" % res2["model"][2][-300:], {"no_failing_input_found": True, "broken": "model execution", "stderr": res2["model"][2][-1500:]})
-    for n, p in idx.items():
-        m = (model.get("m%d" % n) or ["?"])[0]
+                run.violation("tokenizer error but Parse accepts: %r" % shown[:120], {"kind": "impl-inconsistent", "sql": shown, "hex": b.hex(), "parse": p[:200]})
+        else:
+            idx[n] = p
+            dist["accepted" if p.startswith("accept") else "rejected"] += 1
+            for tk in t[len("tokens ok"):].split(";"):
+                ty = tk.strip().split(":")[0]
+                if ty:
+                    tok_kinds[ty] = tok_kinds.get(ty, 0) + 1
+        if mt.startswith(("tokens PANIC", "tokens DIVERGE")):
+            run.violation("the tokenizer model %s on %r" % ("slices out of range" if "PANIC" in mt else "runs out of its iteration budget", shown[:120]),
+                          {"kind": "model-finding", "sql": shown, "hex": b.hex(), "model": mt, "impl": t[:300]})
+        elif mt != t:
+            broken_tok.append((n, t, mt))
         if m.startswith(("stale", "PANIC", "DIVERGE")):
             kind = {"stale": "reads a value left in a reused stack slot by an unrelated reduction", "PANIC": "indexes a table out of range", "DIVERGE": "does not finish within the step budget"}[m.split(" ")[0]]
-            run.violation("the translated parser %s on %r: %s" % (kind, allst[n][:120], m), {"kind": "model-finding", "sql": allst[n], "model": m, "impl": p[:300]})
-        elif m != p and "#float" not in m:
-            run.violation("translated parser and implementation differ on %r" % allst[n][:120],
-                          {"no_failing_input_found": True, "broken": "correspondence SqlParse (translated tables + driver) vs sql.Parse", "sql": allst[n], "impl": p[:600], "model": m[:600]})
-        run.nontrivial(allst[n])
+            run.violation("the translated parser %s on %r: %s" % (kind, shown[:120], m), {"kind": "model-finding", "sql": shown, "hex": b.hex(), "model": m, "impl": p[:300]})
+        elif m != p and "#float" not in m and mt == t:
+            run.violation("translated parser and implementation differ on %r" % shown[:120],
+                          {"no_failing_input_found": True, "broken": "correspondence SqlParse (translated tables + driver) vs sql.Parse", "sql": shown, "hex": b.hex(), "impl": p[:600], "model": m[:600]})
+        run.nontrivial(b)
+    dist["token_kinds_seen"] = len(tok_kinds)
+    # 2. token-level locality on the implementation: the tokens of a string do not depend on what stands before or
+    #    after it (a word and a space).  Run on a sample, and on every input where model and implementation differ:
+    #    there it is the search for a concrete failing input of the property.
+    cand = [n for n, _, _ in broken_tok][:200] + rng.sample(range(len(inputs)), min(len(inputs), 400 if quick else 6000))
+    ml = []
+    for n in cand:
+        b = inputs[n]
+        ml.append(("a%d" % n, "tokens %s" % (b"zq " + b).hex()))
+        ml.append(("b%d" % n, "tokens %s" % (b + b" zq").hex()))
+        ml.append(("c%d" % n, "tokens %s" % (b + b" " + b).hex()))
+    _, limpl0, _ = ops.run_cmds("c16-toklocal", ml, sides=("impl",), timeout=900)
+    zq = "57393:7a71:0:0000000000000000"
+    nonlocal_found = set()
+    for n in cand:
+        t = (impl.get("t%d" % n) or ["?"])[0]
+        if not t.startswith("tokens ok"):
+            continue
+        base = t[len("tokens ok"):].strip()
+        exp = {"a": ";".join(x for x in (zq, base) if x), "b": ";".join(x for x in (base, zq) if x), "c": ";".join(x for x in (base, base) if x)}
+        for tag in "abc":
+            o = (limpl0.get("%s%d" % (tag, n)) or ["?"])[0]
+            dist["locality_pairs"] += 1
+            if o != "tokens ok " + exp[tag] and o != ("tokens ok" if not exp[tag] else None) and n not in nonlocal_found:
+                # a string that ends inside a quoted token legitimately swallows what follows: only `ok` inputs are used,
+                # and those end at a token boundary
+                nonlocal_found.add(n)
+                shown = inputs[n].decode("utf-8", "replace")
+                run.violation("the tokens reported for %r change when %s" % (shown[:100], {"a": "a word and a space stand before it", "b": "a space and a word follow it", "c": "it is repeated after a space"}[tag]),
+                              {"kind": "not-local", "hex": inputs[n].hex(), "sql": shown, "alone": t[:400], "in_context": o[:400], "context": tag})
+    for n, t, mt in broken_tok[:20]:
+        if n in nonlocal_found:
+            continue
+        shown = inputs[n].decode("utf-8", "replace")
+        run.violation("tokenizer model and implementation differ on %r" % shown[:120],
+                      {"no_failing_input_found": True, "broken": "correspondence Model/Tokenizer.v (C16_tokenize_total, C16_tokens_contiguous, C16_tokens_suffix_local) vs sql.tokenize",
+                       "sql": shown, "hex": inputs[n].hex(), "impl": t[:600], "model": mt[:600]})
     # 3. determinism: the same string gives the same answer whatever was parsed before it
     sample = rng.sample(range(len(allst)), min(len(allst), 300 if quick else 3000))
     order1 = [allst[i] for i in sample]
@@ -172,15 +225,18 @@ def check(run):
                           {"kind": "not-local", "sql": full, "column_index": k, "in_context": cf[k], "alone": ca[0], "first_of_rotation": cs[0], "alone_sql": alone})
     run.cov["traces_validated_against_impl"] = len(idx)
     run.cov["rule"] = ("grammar-generated CREATE TABLE / CREATE INDEX / SELECT texts and a malformed stream (arbitrary and multi-byte characters, truncations, injected quotes / brackets / huge "
-                       "numbers / NUL, shuffled tokens, fixed near-misses): (1) tokenize and Parse never panic; (2) the parser TRANSLATED from sql/parser.go on this run (tables, actions, "
-                       "driver model, with stale-slot detection) is run on the implementation's token lists and must give the same accept/reject and the same statement, and never read a "
-                       "stale slot, index out of range or exhaust its step budget; (3) every string is parsed three times in different orders between other strings: same result; "
+                       "numbers / NUL, shuffled tokens, fixed near-misses): plus a lexical byte stream (numeric literals at every strconv boundary, all quote kinds with doubled/unterminated quotes, "
+                       "letters / digits / spaces of many scripts, invalid UTF-8, operator runs): (1) tokenize and Parse never panic; (2) Model/Tokenizer.v (the hand model of sql/tokenizer.go over this "
+                       "toolchain's unicode tables) must print the same token list, token by token, and the parser TRANSLATED from sql/parser.go on this run (tables, actions, "
+                       "driver model, with stale-slot detection) run on the model's tokens must give the same accept/reject and the same statement, and never read a "
+                       "stale slot, index out of range or exhaust its step budget; (2b) token-level locality on the implementation: a word before, a word after, the string twice; (3) every string is parsed three times in different orders between other strings: same result; "
                        "(4) for SQLite-valid CREATE TABLE statements each column is parsed in context, alone, and first in a rotation: its report must be identical. "
                        "non-trivial = distinct strings that reach the parser")
     run.cov["distribution"] = dist
     for s in (stmts[0], stmts[1], mal[3]):
         run.sample({"sql": s[:200]})
-    run.assumptions += ["unicode.IsLetter/IsDigit/IsSpace and strconv are the tokenizer's (the token lists given to the translated parser are the implementation's)"]
+    run.sample({"lexical_hex": lex[0].hex()})
+    run.assumptions += ["unicode.IsLetter/IsDigit/IsSpace are the interval tables dumped from the toolchain on this build (Gen/Lexer.v); strconv.ParseInt/ParseUint/ParseFloat are modelled on the alphabet readNumericLiteral passes (Model/Tokenizer.v) and compared with the library on every generated literal"]
 
 
 def replay(run, path):
